@@ -16,6 +16,32 @@ def run(chk):
     # model-independent monitor: a dial towards a listener without limit and without a Never entry must succeed
     for rec in recs:
         nodes, ops, res = rec["nodes"], rec["ops"], rec["res"]
+        nn = len(nodes)
+        # the admission rule restated on the implementation's own observations: affinity table as
+        # scripted, count = the listener's listing just before the dial
+        aff = {}
+        listing = {i: [] for i in range(1, nn + 1)}
+        for (oi, pos_res, ppos, rpcs) in rec["marks"]:
+            op = ops[oi]
+            if op[0] == "K":
+                if op[3] == "none":
+                    aff.pop((op[1], op[2]), None)
+                else:
+                    aff[(op[1], op[2])] = op[3]
+            if op[0] == "R":
+                aff = {k: v for k, v in aff.items() if k[0] != op[1]}
+            if op[0] == "D" and len(op) == 3:
+                a, b = op[1], op[2]
+                r = res[pos_res - 1]
+                k = aff.get((b, a))
+                lim = nodes[b][2]
+                count = len(listing[b])
+                want = True if k in ("high", "allowed") else False if k == "never" else (lim is None or count < lim)
+                if r.startswith("ok") != want:
+                    chk.monitor_fail("inbound admission: listener %d (limit %s, %d established connection(s), affinity for dialer %d: %s) %s the connection" %
+                                     (b, lim, count, a, k, "admitted" if r.startswith("ok") else "rejected"), dict(case=rec["scenario"][:2500], op_index=oi))
+                    break
+            listing = {i: [x for x in res[ppos - 1 + (i - 1)].strip("[]").split(",") if x] for i in range(1, nn + 1)}
         never = set()
         for (oi, pos_res, ppos, rpcs) in rec["marks"]:
             op = ops[oi]
